@@ -15,13 +15,15 @@ def job_ops(job, plan):
     ops = [cr.create_line(job["cfg"]), "limit %d" % job["N"], "delay"]
     if rng.chance(.35):
         ops.append("stale %d" % rng.choice([1, 37, 300, 100000]))
-    ops.append("eoistyle %d" % rng.below(5))   # how end-of-input is said and how the drain calls look (harness/cr/trace.c after_end)
+    ops.append("eoistyle %d" % rng.below(6))   # how end-of-input is said and how the drain calls look (harness/cr/trace.c after_end)
     ops.append("nullout %d" % rng.below(2))    # a call that asks for 0 frames passes out == NULL (soxr.h allows it)
     cap = [10 ** 9, 60, 3000, 10 ** 9][rng.below(4)]
     for i in range(rng.choice([3, 10, 40, 120])):
         il = min(rng.choice(sizes) if rng.chance(.6) else rng.below(3000), cap)
         ol = min(rng.choice(sizes) if rng.chance(.6) else rng.below(3000), cap)
         ops += ["feed %d %d %d" % (il, ol, rng.below(2)), "delay"]
+    for i in range(rng.below(4)):       # (`eoistyle 5`: the marked last block, accepted only in part)
+        ops += ["feed %d %d 1" % (job["N"], rng.choice([1, 10, 100, 700])), "delay"]
     ops += ["feed %d %d 0" % (job["N"], rng.choice(sizes)), "delay"]
     est = int(job["N"] / cr.io_ratio(job["cfg"])) + 10
     for i in range(rng.choice([1, 3, 12])):
@@ -44,18 +46,21 @@ def oracle(job, tr):
     olen = 0
     drained = False
     npoints = 0
+    cur = None
     for l in tr.lines:
         if l.startswith("> cr.proc"):
-            t = l.split(); olen = int(t[6])
+            t = l.split(); olen = int(t[6]); cur = t
             if cr.signals_end(t):      # in == NULL, or the ~ilen mark on a block taken whole
                 flushed = True
         elif l.startswith("> cr.eoi"):                            # end-of-input by a call without buffers
-            flushed = True; olen = 0
+            flushed = True; olen = 0; cur = None
         elif l.startswith("> cr.clear"):
             cleared = True; fed = out = 0; flushed = False
         elif l.startswith("< R "):
             r = cr.parse_kv(l)
             fed += int(r["id"]); out += int(r["od"])
+            if cr.marked_whole(cur, r):
+                flushed = True
             if flushed and olen > 0 and int(r["od"]) == 0:
                 drained = True
         elif l.startswith("D "):
